@@ -302,10 +302,12 @@ impl<T: RealNumber + Scalar + AddAssign + SubAssign + MulAssign + DivAssign + Su
     }
 
     fn approximate_eq(&self, other: &Self, error: T) -> bool {
-        assert!(self.shape() == other.shape());
-        self.iter()
-            .zip(other.iter())
-            .all(|(a, b)| (*a - *b).abs() <= error)
+        // operands of different shape are simply not equal
+        self.shape() == other.shape()
+            && self
+                .iter()
+                .zip(other.iter())
+                .all(|(a, b)| (*a - *b).abs() <= error)
     }
 
     fn add_mut(&mut self, other: &Self) -> &Self {
